@@ -72,6 +72,16 @@ Theorem C05_failed_child_is_reported :
 Proof. exact ScopePrompt.child_failure_reported_thm. Qed.
 Print Assumptions C05_failed_child_is_reported.
 
+Theorem C05_first_failure_aborts_body_and_children :
+  forall k s i s1 ls s2 c o, ScopeProto.reachable k s -> ScopeProto.interruptable s = true ->
+    ScopeProto.step s (ScopeProto.ChildFail i) = Some s1 -> ScopeProto.run s1 ls = Some s2 ->
+    ScopeProto.ph s2 = ScopeProto.Exited c o ->
+    ScopeProto.exited_at s2 = Some (ScopeProto.now s) /\ o = ScopeProto.outcome_of c true /\
+    Forall (fun x => ScopeProto.isdone x = true) (ScopeProto.kids s2) /\
+    (forall j, ScopeProto.step s2 (ScopeProto.ChildStart j) = None /\ ScopeProto.step s2 (ScopeProto.ChildStep j) = None).
+Proof. exact ScopePrompt.first_failure_aborts_all_thm. Qed.
+Print Assumptions C05_first_failure_aborts_body_and_children.
+
 (** (A) the tie to /repo's current source: every function this property's models were transcribed from has, in the
     tree this run is checking, the normalised source it had when the models were validated (hashes regenerated from
     /repo into gen/Generated.v on every run; pins in gen/SourcePins.v).  A change to one of them invalidates the
